@@ -246,24 +246,6 @@ class QCumulantFlow(FlowInterface.FlowInterface):
             norm4 = (mult - 1) * (mult - 2) * (mult - 3)
             norm4_sum = np.sum(norm4)
 
-            corr1 = (
-                Qn_to6_sum
-                + 9.0 * Q2n_sq_sum * Qn_sq_sum
-                - 6.0 * ReQ2nQnQnConjCub
-            ) / norm1_sum
-            corr2 = (
-                4.0 * (ReQ3nQnConjCub - 3.0 * ReQ3nQ2nConjQnConj) / norm1_sum
-            )
-            corr3 = (
-                2.0
-                * (9.0 * np.sum((mult - 4) * ReQ2nQnConjSq) + 2.0 * Q3n_sq_sum)
-                / norm1_sum
-            )
-            corr4 = -9.0 * (Qn_to4_sum + Q2n_sq_sum) / norm2_sum
-            corr5 = 18.0 * Qn_sq_sum / norm3_sum
-            corr6 = -6.0 / norm4_sum
-            corr = corr1 + corr2 + corr3 + corr4 + corr5 + corr6
-
             # corr_err computation here:
             W6 = (
                 mult
@@ -297,8 +279,11 @@ class QCumulantFlow(FlowInterface.FlowInterface):
                 )
             ) / norm1
             ebe_6p_corr4 = (
-                -9.0 * np.real(Qn * Qn * Qn.conj() * Qn.conj())
-                + np.real(Q2n * Q2n.conj())
+                -9.0
+                * (
+                    np.real(Qn * Qn * Qn.conj() * Qn.conj())
+                    + np.real(Q2n * Q2n.conj())
+                )
             ) / norm2
             ebe_6p_corr5 = (18.0 * np.real(Qn * Qn.conj())) / norm3
             ebe_6p_corr6 = -6.0 / norm4
@@ -310,6 +295,9 @@ class QCumulantFlow(FlowInterface.FlowInterface):
                 + ebe_6p_corr5
                 + ebe_6p_corr6
             )
+            # <<6>>: event average of <6>_i weighted with the number of
+            # six-particle combinations W6, Eqs. (8),(10) Ref. [2]
+            corr = np.sum(W6 * ebe_6p_corr) / sum_W6
             difference = ebe_6p_corr - corr
             # weighted variance
             variance = np.sum(W6 * np.square(difference)) / sum_W6
